@@ -140,7 +140,7 @@ def main():
     files = opt("--files", ",".join(DEFAULT_FILES)).split(",")
     mx, start, stride = int(opt("--max", "1000000")), int(opt("--start", "0")), int(opt("--stride", "1"))
     outp, tier = opt("--out", os.path.join(VERIF, "build", "automut.jsonl")), opt("--tier", "quick")
-    os.makedirs(os.path.dirname(outp), exist_ok=True)
+    os.makedirs(os.path.dirname(os.path.abspath(outp)), exist_ok=True)
     allm = []
     for f in files:
         p = os.path.join(SRC_REPO, f)
